@@ -492,6 +492,22 @@ def _r9_rest(idx, r, g):
     r2_classification(idx, r)
 
 
+def r10_rotation_of_copies_and_lookup(idx, r):
+    """Sites other properties also depend on, decided here for the geometry conversions: (a) the assemblies convert() and addEdgeAssemblies
+    create are rotated copies - HexBlock.rotate turns children, free coordinates (matrix applied from the left), boundary vectors (pivot
+    along the first axis) by one angle (R08.4, the whole rule); (b) after edge assemblies were added or removed, a look-up by location answers
+    from the present occupancy: the table is built per call (R14.13)."""
+    from .c08 import r4_block_rotation
+    from .c14 import location_table_fresh_rule
+    r4_block_rotation(idx, r)
+    location_table_fresh_rule(idx, r)
+
+
+def r11_pairing(idx, r):
+    from ..pairing import pairing_rule
+    pairing_rule(idx, r, ["armi.reactor.converters.geometryConverters", "armi.reactor.cores", "armi.utils.hexagon"], 60)
+
+
 def run(idx, chk):
     chk.explanation = (
         "C13: in ThirdCoreHexToFullCoreChanger.convert every symmetric location gets exactly one deep-copied, uniquely named, rotated and recorded "
@@ -519,3 +535,7 @@ def run(idx, chk):
                  necessary="every new assembly is its source rotated into place")
     chk.run_rule("R13.9", "only the 0/120-degree lines halve a block; integrated flux cut by the symmetry factor in both branches; location flags tested by containment", lambda r: r9_symmetry_cut_sites(idx, r), floor=6,
                  necessary="volume-integrated totals of the full core are three times those of the third core; every copy is its source rotated")
+    chk.run_rule("R13.10", "copies are rotated as a whole (children, coordinates, boundary vectors); the location table is built per call", lambda r: r10_rotation_of_copies_and_lookup(idx, r), floor=8,
+                 necessary="each created assembly is the rotated copy of its source; lookups after a change of the edge assemblies see the present core")
+    chk.run_rule("R13.11", "arguments stand at the parameter they are named after; sibling calls forward the same pass-through parameters", lambda r: r11_pairing(idx, r), floor=1,
+                 necessary="source and image locations are not exchanged")
